@@ -30,6 +30,7 @@ int k_clock_symbolic;
 int k_clock_reads;
 int k_sys_mode[KSYS_MAX];
 int k_sys_calls[KSYS_MAX];
+int k_sys_fail_from[KSYS_MAX];	/* >0: ENOSYS from that call (1-based) on */
 int k_eintr_budget;
 int k_eintr_io;
 int k_fd_limit = KMAXFD;
@@ -59,6 +60,11 @@ static int sys_absent(int which)
 	int m = k_sys_mode[which];
 
 	k_sys_calls[which]++;
+	if (m == 0 && k_sys_fail_from[which] > 0 && k_sys_calls[which] >= k_sys_fail_from[which]) {
+		sx_cover("env.syscall-disappears-mid-run");
+		errno = ENOSYS;
+		return 1;
+	}
 	if (m == 0)
 		return 0;
 	if (m == 2) {
